@@ -145,7 +145,7 @@ func exhGem() []tree {
 	return out
 }
 
-var pepLocalWords = []string{"a", "b", "ab", "abc", "x1", "1x", "ubuntu", "A", "ABC", "Ab", "z"}
+var pepLocalWords = []string{"a", "b", "ab", "abc", "x1", "1x", "ubuntu", "A", "ABC", "Ab", "z", "3e5f1a2", "1a2b", "0a", "9z", "abc1234", "git", "1A", "00a"}
 
 func genPep(r *rand.Rand) tree {
 	a := &pepAst{epoch: "0"}
@@ -281,4 +281,135 @@ func exhTrees(eco string) []tree {
 		return exhMaven()
 	}
 	return exhSemver(eco)
+}
+
+// neighbor returns a tree that differs from t in ONE component (an identifier or segment
+// replaced, added or dropped; a number moved by one; a tag switched on or off). Ordering
+// defects usually need two versions that agree on everything the comparator looks at first.
+func neighbor(r *rand.Rand, t tree, eco string) tree {
+	cpI := func(l []ident) []ident { return append([]ident{}, l...) }
+	cpS := func(l []string) []string { return append([]string{}, l...) }
+	bump := func(s string) string {
+		switch s {
+		case "0":
+			return "1"
+		case "1":
+			return pick(r, "0", "2")
+		case "9":
+			return "10"
+		case "10":
+			return pick(r, "9", "11")
+		}
+		return pick(r, "0", "1", "2", "10")
+	}
+	editIdents := func(l []ident, gen func() ident) []ident {
+		l = cpI(l)
+		switch {
+		case len(l) == 0 || r.Intn(5) == 0:
+			return append(l, gen())
+		case r.Intn(5) == 0:
+			return l[:len(l)-1]
+		default:
+			i := r.Intn(len(l))
+			if l[i].num && r.Intn(2) == 0 {
+				l[i] = ident{true, bump(l[i].s)}
+			} else {
+				l[i] = gen()
+			}
+			return l
+		}
+	}
+	switch x := t.(type) {
+	case svTree:
+		a := &semverAst{nums: cpS(x.nums), pre: cpI(x.pre), build: cpS(x.build)}
+		if r.Intn(4) == 0 {
+			i := r.Intn(len(a.nums))
+			a.nums[i] = bump(a.nums[i])
+		} else {
+			a.pre = editIdents(a.pre, func() ident { return genIdent(r, eco) })
+		}
+		return svTree{a, eco}
+	case gemTree:
+		a := &gemAst{segs: cpI(x.segs)}
+		a.segs = editIdents(a.segs, func() ident {
+			if r.Intn(2) == 0 {
+				return ident{true, pick(r, "0", "1", "2", "10")}
+			}
+			return ident{false, gemWords[r.Intn(len(gemWords))]}
+		})
+		return gemTree{a}
+	case pepTree:
+		a := &pepAst{epoch: x.epoch, release: cpS(x.release), preKind: x.preKind, preNum: x.preNum, post: x.post, dev: x.dev, local: cpI(x.local)}
+		switch r.Intn(8) {
+		case 0:
+			i := r.Intn(len(a.release))
+			a.release[i] = bump(a.release[i])
+		case 1:
+			if a.preKind == "" {
+				a.preKind, a.preNum = pick(r, "a", "b", "rc"), pick(r, "0", "1")
+			} else if r.Intn(2) == 0 {
+				a.preKind = pick(r, "a", "b", "rc")
+			} else {
+				a.preNum = bump(a.preNum)
+			}
+		case 2:
+			if a.post == "" {
+				a.post = pick(r, "0", "1")
+			} else {
+				a.post = pick(r, "", bump(a.post))
+			}
+		case 3:
+			if a.dev == "" {
+				a.dev = pick(r, "0", "1")
+			} else {
+				a.dev = pick(r, "", bump(a.dev))
+			}
+		default:
+			a.local = editIdents(a.local, func() ident {
+				if r.Intn(3) == 0 {
+					return ident{true, pick(r, "0", "1", "2", "10", "01")}
+				}
+				return ident{false, pepLocalWords[r.Intn(len(pepLocalWords))]}
+			})
+		}
+		return pepTree{a}
+	case mvnTree:
+		a := &mavenAst{nums: cpS(x.nums), qsep: x.qsep, qual: x.qual, nsep: x.nsep, qnum: x.qnum, snap: x.snap}
+		switch r.Intn(5) {
+		case 0:
+			i := r.Intn(len(a.nums))
+			a.nums[i] = bump(a.nums[i])
+		case 1:
+			a.snap = !a.snap
+		case 2:
+			if a.qsep == 0 {
+				a.qsep, a.qual = "dht"[r.Intn(3)], mavenQuals[r.Intn(len(mavenQuals))]
+			} else {
+				a.qsep = "dht"[r.Intn(3)]
+			}
+		case 3:
+			if a.qsep != 0 {
+				a.qual = mavenQuals[r.Intn(len(mavenQuals))]
+				if releaseQual(a.qual) {
+					a.nsep, a.qnum = 0, ""
+				}
+			} else {
+				a.nums = append(a.nums, pick(r, "0", "1"))
+			}
+		default:
+			if a.qsep != 0 && !releaseQual(a.qual) {
+				if a.nsep == 0 {
+					a.nsep, a.qnum = "dht"[r.Intn(3)], pick(r, "0", "1", "2")
+				} else if r.Intn(2) == 0 {
+					a.qnum = bump(a.qnum)
+				} else {
+					a.nsep = "dht"[r.Intn(3)]
+				}
+			} else {
+				a.nums = append(a.nums, pick(r, "0", "1"))
+			}
+		}
+		return mvnTree{a}
+	}
+	return t
 }
